@@ -25,6 +25,7 @@ import (
 	"github.com/ipfs/go-cid"
 	"github.com/rpcpool/yellowstone-faithful/blocktimeindex"
 	"github.com/rpcpool/yellowstone-faithful/bucketteer"
+	"github.com/rpcpool/yellowstone-faithful/deprecated/compactindex36"
 	"github.com/rpcpool/yellowstone-faithful/gsfa"
 	"github.com/rpcpool/yellowstone-faithful/indexes"
 	"github.com/rpcpool/yellowstone-faithful/indexmeta"
@@ -73,7 +74,7 @@ func c10CopyDir(dst, src string) error {
 func TestVerifC10(t *testing.T) {
 	rec := ev.New("C10", "swap-matrix")
 	defer rec.Flush()
-	rec.Rule("every index role {cid_to_offset_and_size, slot_to_cid, sig_to_cid, sig_exists, gsfa dir, gsfa manifest alone, gsfa pubkey index alone, slot_to_blocktime} x donor {other epoch, same epoch other CAR, file of another role, same content with one identity field (epoch / root CID / kind) changed}, singly and in pairs; identity round trip; wrong-CAR fetches; distinct = distinct (role(s), donor, field) substitutions")
+	rec.Rule("every index role {cid_to_offset_and_size, slot_to_cid, sig_to_cid, sig_exists, gsfa dir, gsfa manifest alone, gsfa pubkey index alone, slot_to_blocktime} x donor {other epoch, same epoch other CAR, file of another role, same content with one identity field (epoch / root CID / kind) changed}, singly and in pairs; the file roles again with the index fetched over HTTP; a current-format sibling of another epoch/CAR beside A's own legacy-format slot-to-cid / sig-to-cid; identity round trip; wrong-CAR fetches; distinct = distinct (role(s), donor, field) substitutions")
 	seed := ev.Seed()
 	root := filepath.Join(ev.Scratch(), "c10")
 	os.MkdirAll(root, 0o755)
@@ -400,6 +401,104 @@ func TestVerifC10(t *testing.T) {
 			rec.Distinct("field/slot_to_blocktime/epoch")
 		} else {
 			rec.Count("diag_blocktime_layout_unknown", 1)
+		}
+	}
+
+	// ---- the same substitutions with the index fetched over HTTP (a remote index goes through another
+	// reader and, in the loader, through its own branches)
+	{
+		srv := vfServeDir(root)
+		urlOf := func(p string) string {
+			rel, _ := filepath.Rel(root, p)
+			return srv.URL + "/" + filepath.ToSlash(rel)
+		}
+		for _, role := range fileRoles {
+			// control: A's own file over HTTP must load, otherwise a refusal below proves nothing
+			if err := tryLoad(map[string]string{role: urlOf(pathOf(A, role))}); err != nil {
+				rec.Inconclusive(fmt.Sprintf("remote control: A's own %s over HTTP does not load: %v", role, err))
+				continue
+			}
+			for _, d := range donors {
+				err := tryLoad(map[string]string{role: urlOf(pathOf(d.fx, role))})
+				rec.Eval(1)
+				mustFail := d.epochDiffers || (d.rootDiffers && carriesRoot[role])
+				if mustFail && err == nil {
+					rec.Violation("epoch-loads-with-foreign-index/"+role+"/remote", fmt.Sprintf("role %s fetched over HTTP from %s: the epoch loaded although the file records a different %s", role, d.name, c10What(d.epochDiffers, d.rootDiffers && carriesRoot[role])), c10Case{Seed: seed, Subst: map[string]string{role: d.name + " over HTTP"}})
+				}
+				rec.Distinct(fmt.Sprintf("remote/%s/%s", role, d.name))
+			}
+		}
+		srv.Close()
+	}
+
+	// ---- mixed formats: A's own slot-to-cid / sig-to-cid in the legacy format (which records no identity)
+	// next to a current-format index of another epoch / CAR in the sibling role: the sibling's identity must
+	// still be checked
+	{
+		ldir := filepath.Join(root, "legacy")
+		os.MkdirAll(ldir, 0o755)
+		build36 := func(name string, n int, each func(put func(key []byte, c cid.Cid) error) error) (string, error) {
+			tmp := filepath.Join(ldir, name+"-tmp")
+			os.MkdirAll(tmp, 0o755)
+			b, err := compactindex36.NewBuilder(tmp, uint(n), 0)
+			if err != nil {
+				return "", err
+			}
+			defer b.Close()
+			if err := each(func(key []byte, c cid.Cid) error {
+				var v [36]byte
+				copy(v[:], c.Bytes())
+				return b.Insert(key, v)
+			}); err != nil {
+				return "", err
+			}
+			p := filepath.Join(ldir, name)
+			f, err := os.Create(p)
+			if err != nil {
+				return "", err
+			}
+			defer f.Close()
+			return p, b.Seal(ctx, f)
+		}
+		oldSlot, err1 := build36("epoch-5.car.slot-to-cid.index", len(A.Model.Blocks), func(put func([]byte, cid.Cid) error) error {
+			for _, b := range A.Model.Blocks {
+				if err := put(indexes.Uint64tob(b.Slot), b.Cid); err != nil {
+					return err
+				}
+			}
+			return nil
+		})
+		nTx := 0
+		for _, b := range A.Model.Blocks {
+			nTx += len(b.Txs)
+		}
+		oldSig, err2 := build36("epoch-5.car.sig-to-cid.index", nTx, func(put func([]byte, cid.Cid) error) error {
+			for _, b := range A.Model.Blocks {
+				for _, tx := range b.Txs {
+					if err := put(tx.Sig[:], tx.Cid); err != nil {
+						return err
+					}
+				}
+			}
+			return nil
+		})
+		if err1 != nil || err2 != nil {
+			rec.Inconclusive(fmt.Sprintf("legacy index fixtures: %v %v", err1, err2))
+		} else {
+			for _, m := range []struct{ legacyRole, legacyPath, sibling string }{{"slot_to_cid", oldSlot, "sig_to_cid"}, {"sig_to_cid", oldSig, "slot_to_cid"}} {
+				if err := tryLoad(map[string]string{m.legacyRole: m.legacyPath}); err != nil {
+					rec.Inconclusive(fmt.Sprintf("legacy control: A with its own legacy-format %s does not load: %v", m.legacyRole, err))
+					continue
+				}
+				for _, d := range donors {
+					err := tryLoad(map[string]string{m.legacyRole: m.legacyPath, m.sibling: pathOf(d.fx, m.sibling)})
+					rec.Eval(1)
+					if err == nil {
+						rec.Violation("epoch-loads-with-foreign-index/"+m.sibling+"/beside-legacy-"+m.legacyRole, fmt.Sprintf("A's own %s in the legacy format and the %s of %s: the epoch loaded", m.legacyRole, m.sibling, d.name), c10Case{Seed: seed, Subst: map[string]string{m.legacyRole: "A's own content, legacy format", m.sibling: d.name}})
+					}
+					rec.Distinct(fmt.Sprintf("mixed/%s/%s", m.legacyRole, d.name))
+				}
+			}
 		}
 	}
 
